@@ -405,7 +405,10 @@ func lens(pk [][]byte) []int {
 func c15Exec(c *Ctx, cs c15Case, key string) {
 	r := c.R
 	r.Eval(1)
-	sig, detail := c15Run(cs, r)
+	var sig, detail string
+	if pi := rt.Catch(func() { sig, detail = c15Run(cs, r) }); pi != nil {
+		sig, detail = "panic/"+pi.Frame, "operation sequence made the queue panic: "+pi.Value
+	}
 	if sig != "" {
 		r.Violate(sig, detail, cs)
 		return
